@@ -1669,11 +1669,15 @@ def main(ck):
         "defect #13, invalid time stamps); then random cases regenerated from (seed, index): save_contour_coordinates on "
         "2-D/3-D (also 1-D/4-D) coordinate arrays of 0..2000 rows (magnitudes 1e-7..1e7 of either sign, exact ties and their "
         "float neighbours, zeros, non-finite) x default/given semantics (unicode, ';', too short) x paths with/without "
-        "extension, dotted directories, hidden files, plus contours of every class; plot_2D_contour on real / elliptic / "
-        "arbitrary contours x swap_axis x design_conditions None/True/False/array x sample none/array/DataFrame/list; the "
-        "other plot functions on three predefined models fitted to random subsamples of the shipped 1-year datasets; "
-        "read_ec_benchmark_dataset on synthetic files of 1..1e4 rows (sorted / shuffled / duplicated stamps, 1-4 value "
-        "columns). Non-trivial: save with >= 2 rows, >= 2 columns, finite values (or a path-rule case); plot with >= 3 "
+        "extension, dotted directories, hidden files (str or pathlib.Path), target file existing before or not, semantics "
+        "positional / omitted / keyword, plus contours of every class (2-D) and IFORM/ISORM/HDC in 3-D; plot_2D_contour on "
+        "real / elliptic / arbitrary contours x swap_axis x design_conditions None/True/False/array (also empty) x sample "
+        "none/array/DataFrame/list x ax None / supplied-but-not-current / supplied-and-current; the other plot functions on "
+        "three predefined models fitted to random subsamples of the shipped 1-year datasets (sample passed as array / "
+        "DataFrame / list; isodensity with levels given/automatic x ax None/supplied x n_grid_steps given/default; "
+        "par_rename none/all/some; axes supplied or not); read_ec_benchmark_dataset on synthetic files of 1..1e4 rows "
+        "(sorted / shuffled / duplicated stamps, 1-4 value columns, 0-6 decimals, LF / CRLF line ends) and, without a path "
+        "argument, on the shipped dataset A. Non-trivial: save with >= 2 rows, >= 2 columns, finite values (or a path-rule case); plot with >= 3 "
         "contour points; fitted model with a conditional dimension; file with >= 2 data rows. Distinct by SHA1 of the case."
     )
     ck.assumptions = [
@@ -1682,9 +1686,18 @@ def main(ck):
         "Axes.hist / Axes.contour arguments are observed through recording wrappers installed in the harness process",
         "theoretical quantiles of conditional dimensions in plot_marginal_quantiles come from an unseeded Monte-Carlo sample: only order and length are checked there",
     ]
+    ck.assumptions += [
+        "a pathlib.Path without extension is refused by save_contour_coordinates (TypeError; file_path is documented as str): counted, not asserted",
+        "CRLF files: the model drops a '\\r' directly in front of '\\n' (normalizeEol) before parsing; lone '\\r' are not generated",
+    ]
     ck.partial = {
         "other plot functions": "that the arrays handed to matplotlib are `curve leaf (linspace …)` is observed per run "
                                 "(leaf = direct call of pdf / dependence function); the Lean theorem curve_values is about the model curve only",
+        "histogram data / QQ ordinates / interval estimates": "compared per run with the interval data, the sorted sample and "
+                                                              "parameters_per_interval; no Lean theorem",
+        "labels, legend, returned values": "axis labels (variable named iff it is the one drawn, par_rename), isodensity legend "
+                                           "label i = level i, automatic levels increasing, returned design conditions = drawn "
+                                           "ones, drawing into the supplied / a new axes: oracle per run only, no model",
     }
     save_c, plot_c, bench_c = corpus()
     run_cases(ck, save_c + plot_c + bench_c)
